@@ -81,8 +81,10 @@ class SList(Sym):
     symbolic index (memoised on the syntactic index term), or None when the list is over
     a z3 sequence ``seq``.
     ``uid``: name used for measures.
+    ``parts``: None for a base sequence, or -- for a concatenation -- the list of its pieces
+    ``('elem', value)`` / ``('base', SList)`` in order (structural normal form, used by str.join).
     """
-    __slots__ = ('length', 'elem', 'uid', 'cache', 'seq', 'immutable', 'aux')
+    __slots__ = ('length', 'elem', 'uid', 'cache', 'seq', 'immutable', 'parts', 'elem_ty', 'aux')
 
     def __init__(self, length, elem, uid, seq=None):
         self.length = length
@@ -91,6 +93,8 @@ class SList(Sym):
         self.cache = {}
         self.seq = seq
         self.immutable = True
+        self.elem_ty = None        # shape of the elements, when created from a ListOf shape
+        self.parts = None
         self.aux = {}          # measures etc. (pyvc.texts)
 
     def __repr__(self):
